@@ -1,6 +1,6 @@
 PROPS = ["CTV.Props.C12", "CTV.Props.C12Tie"]
 HARNESS = [dict(pkg="./client/", test="TestVerifC12", synctest=True, timeout=900)]
-RULE = ("client.LogClient against a scripted http.RoundTripper inside a synctest bubble: GetSTH, AddChain, AddPreChain (with attempts answered 408/429/503/undecodable-200 "
+RULE = ("client.New on every kind of key option (none, DER/PEM well-formed, truncated, garbage-suffixed, several blocks, text, white space only) followed by get-sth with a bogus and a genuine signature; client.LogClient against a scripted http.RoundTripper inside a synctest bubble: GetSTH, AddChain, AddPreChain (with attempts answered 408/429/503/undecodable-200 "
         "before the response under test), GetSTHConsistency, GetProofByHash, GetEntryAndProof, GetRawEntries, GetAcceptedRoots, GetEntries; status in "
         "{200,201,202,203,204,205,206,207,226,299,300,301,302,303,304,307,308,400,403,404,408,429,500,502,503,504} (every method x every non-200 2xx x a VALID body) x body in {valid, truncated JSON, wrong types, bad base64, JSON followed by garbage, empty/null/{}, extra fields, "
         "wrong lengths (root hash, id, DigitallySigned length field), trailing TLS bytes, foreign-key signature, corrupted signature, signature over other fields / another chain / "
